@@ -15,6 +15,7 @@ import (
 	"time"
 
 	"github.com/transparency-dev/witness/internal/persistence"
+	"github.com/transparency-dev/witness/internal/verif/kit/asmunits"
 	"github.com/transparency-dev/witness/internal/verif/kit/ev"
 	"github.com/transparency-dev/witness/internal/verif/kit/gen"
 	"github.com/transparency-dev/witness/internal/verif/kit/seams"
@@ -40,6 +41,12 @@ func main() {
 	run.Floor("store_sqlfile", 1)
 	dir := run.Scratch()
 	n := run.Pick(3000, 60000)
+	// refusals through the assembled service: a log republishes its size with another root; the served state
+	// (log list, every log's bytes) must be what it was
+	run.Floor("assembled_progress_episodes", 5)
+	run.Units("asm_refusals", run.Pick(6, 48), 6, func(unit int64, r *rand.Rand) {
+		asmunits.Progress(run, unit, r, "other_log_forks_same_size")
+	})
 	run.Units("hist", n, 0, func(unit int64, r *rand.Rand) {
 		o := wit.HistOpts{Gen: gen.Opts{NLogs: 1 + r.IntN(3), MaxSize: 40, Branches: 2 + r.IntN(3), ShareKeys: true, Big: unit%10 == 9, BigBits: 40},
 			MinSteps: 20, MaxSteps: 60, FaultProb: 0.08, DriverFaults: true, RawSQL: true, Dir: dir}
